@@ -10,7 +10,9 @@ import (
 func algorithmCipher(a ipmi.ConfidentialityAlgorithm, g AdditionalKeyMaterialGenerator) (layerexts.SerializableDecodingLayer, error) {
 	switch a {
 	case ipmi.ConfidentialityAlgorithmNone:
-		return nil, nil
+		// sessions without confidentiality are not implemented: a nil layer
+		// panics when the session's decoder is built
+		return nil, fmt.Errorf("unsupported confidentiality algorithm: %v", a)
 	case ipmi.ConfidentialityAlgorithmAESCBC128:
 		key := [16]byte{}
 		copy(key[:], g.K(2))
